@@ -87,15 +87,20 @@ def build() -> Check:
             n_first += 1
             bad = []
             for c, origin, t, ev in first:
-                base = (c or "").rstrip("*")
-                if any(prog.is_subclass(base, x) for x in term):
-                    continue
+                # (an earlier version exempted the classes the handler wrapper re-raises - "the invocation ends, user code lets them propagate" - which
+                # is wrong once a FAIL record has been written: the retried invocation finds FAILED and raises the replay class, and whether an enclosing
+                # context got its own FAIL record in between depends on where the invocation died, so the final outcome does too: h2_C02 #2)
                 if c in replay_classes and not (c or "").endswith("*"):
                     continue
                 bad.append((c, origin, t))
-            ck.ob("R1.exception-class-agreement", construct, not bad,
-                  (f"first failure raises {bad[0][0]} ({bad[0][1]}) but replay raises {sorted(replay_classes)}: "
-                   + trace_sig(bad[0][2])) if bad else f"first={sorted({f[0] for f in first})} replay={sorted(replay_classes)}")
+            if not bad:
+                ck.ob("R1.exception-class-agreement", construct, True, f"first={sorted({f[0] for f in first})} replay={sorted(replay_classes)}")
+            # one obligation per disagreeing class, so that a known disagreement does not hide a new one of the same executor
+            for cname in sorted({b[0] or "?" for b in bad}):
+                b0 = next(b for b in bad if (b[0] or "?") == cname)
+                ck.ob("R1.exception-class-agreement", construct, False,
+                      f"first failure raises {b0[0]} ({b0[1]}) but replay raises {sorted(replay_classes)}: " + trace_sig(b0[2]),
+                      cell=cname.rsplit(".", 1)[-1].rstrip("*"))
             # R4: field provenance
             bad4 = []
             for c, origin, t, ev in first:
@@ -278,7 +283,57 @@ def build() -> Check:
     for mname, ln, cfg in sites:
         ck.ob("R5.batch-classified-with-callers-policy", f"concurrency/executor.py:ConcurrentExecutor.{mname}", cfg == "self.completion_config",
               f"BatchResult built with completion policy `{cfg}` (first run and replay must both use self.completion_config)", where=f"line {ln}")
+    _handler_input_from_whole_history(ck, prog)
     return ck
+
+
+def _handler_input_from_whole_history(ck, prog):
+    """R6.handler-input-from-the-whole-history (h2_C02 #1): the event handed to the user's handler must not depend on how the history was handed to the
+    invocation. The first page of the initial state may lack the EXECUTION operation (the SDK says so itself); everything is merged into the
+    ExecutionState by fetch_paginated_operations(). Backward slice of the event argument inside the wrapper: one of its definitions has to read the
+    state object after that call."""
+    w = prog.func("execution", "durable_execution.<locals>.wrapper")
+    outer = prog.func("execution", "durable_execution")
+    user_fn = [a.arg for a in outer.node.args.args][:1]
+    if not user_fn:
+        raise AnalysisError("durable_execution: parameter holding the user handler not found")
+    submit = [n for n in ast.walk(w.node) if isinstance(n, ast.Call) and n.args and isinstance(n.args[0], ast.Name) and n.args[0].id == user_fn[0]
+              and isinstance(n.func, ast.Attribute) and n.func.attr == "submit"]
+    if len(submit) != 1 or len(submit[0].args) < 2:
+        raise AnalysisError("wrapper: the call that hands the event to the user handler not understood")
+    fetch = [n for n in ast.walk(w.node) if isinstance(n, ast.Call) and isinstance(n.func, ast.Attribute) and n.func.attr == "fetch_paginated_operations"
+             and isinstance(n.func.value, ast.Name)]
+    if len(fetch) != 1:
+        raise AnalysisError("wrapper: the call that loads the paginated history not understood")
+    state_var, fetch_line = fetch[0].func.value.id, fetch[0].lineno
+    defs: dict[str, list] = {}
+    for n in ast.walk(w.node):
+        if isinstance(n, ast.Assign):
+            tg = [t.id for t in n.targets if isinstance(t, ast.Name)]
+        elif isinstance(n, (ast.AnnAssign, ast.NamedExpr)) and isinstance(n.target, ast.Name) and n.value is not None:
+            tg = [n.target.id]
+        else:
+            continue
+        for t in tg:
+            defs.setdefault(t, []).append(n)
+    todo, seen, reads_state = [x.id for x in ast.walk(submit[0].args[1]) if isinstance(x, ast.Name)], set(), []
+    while todo:
+        v = todo.pop()
+        if v in seen:
+            continue
+        seen.add(v)
+        for d in defs.get(v, []):
+            names = {x.id for x in ast.walk(d.value) if isinstance(x, ast.Name)}
+            if state_var in names and d.lineno > fetch_line:
+                reads_state.append((v, d.lineno))
+            todo += [x for x in names if x not in seen and x != state_var]
+    ck.analysed["handler_event_slice"] = sorted(seen)
+    ck.floor("handler_event_slice", len(seen), 2)
+    ck.ob("R6.handler-input-from-the-whole-history", fn_construct(w), bool(reads_state),
+          f"the event handed to the user handler is computed from {sorted(seen)} only - none of these is read from `{state_var}` after "
+          f"fetch_paginated_operations() (line {fetch_line}): when the first page of the initial state comes without the EXECUTION operation (empty page + "
+          "NextMarker, which the SDK documents as expected) the handler is called with {} instead of the recorded input, so the same history gives "
+          "SUCCEEDED inline and FAILED (KeyError) paginated")
 
 
 if __name__ == "__main__":
